@@ -5,7 +5,7 @@ use crate::planners::{dir_name, AnyPlanner, Kind, ALL_KINDS, DIRS};
 use crate::real::{bits_equal, gen_input, Real};
 use crate::recipe::{flatten_avx, flatten_recipe, parse_debug, Flat};
 use crate::types::{ops_get, ops_reset, Counting};
-use crate::util::structured_lengths;
+use crate::util::{pattern_lengths, structured_lengths};
 use rustfft::num_complex::Complex;
 use rustfft::num_traits::Zero;
 use rustfft::FftDirection;
@@ -164,11 +164,22 @@ pub fn run_c04(ctx: &mut Ctx) {
         built_sweep::<f32>(ctx, kind, &built, 32, &mut item);
         built_sweep::<f64>(ctx, kind, &built, 32, &mut item);
     }
-    let rep = lens_upto(n_rep, s_rep);
+    let mut rep = lens_upto(n_rep, s_rep);
+    rep.extend(pattern_lengths(s_rep as u64).into_iter().map(|x| x as usize).filter(|&x| x > n_rep));
+    rep.sort();
+    rep.dedup();
     report_sweep::<f64>(ctx, Kind::Scalar, &rep, 256, &mut item);
     report_sweep::<f64>(ctx, Kind::Sse, &rep, 256, &mut item);
     report_sweep::<f32>(ctx, Kind::Avx, &rep, 256, &mut item);
     report_sweep::<f64>(ctx, Kind::Avx, &rep, 256, &mut item);
+    // a sample of the pattern lengths is also built (up to 2^17): a panic or wrong length inside a constructor shows only there
+    let pat: Vec<usize> = pattern_lengths(1 << 17).into_iter().map(|x| x as usize).filter(|&x| x > n_built).collect();
+    let step = if ctx.quick() { 7 } else { 1 };
+    let sample: Vec<usize> = pat.iter().copied().enumerate().filter(|(i, _)| i % step == (ctx.seed as usize) % step).map(|(_, x)| x).collect();
+    for kind in ALL_KINDS {
+        built_sweep::<f32>(ctx, kind, &sample, 32, &mut item);
+        built_sweep::<f64>(ctx, kind, &sample, 32, &mut item);
+    }
 }
 
 // ------------------------------------------------------------------------------------------------
@@ -272,7 +283,10 @@ pub fn run_c05(ctx: &mut Ctx) {
         multiples_first_sweep::<f64>(ctx, kind, &hist, 16, &mut item);
     }
     // (b) plan reports: no naive node above 32
-    let rep = lens_upto(n_rep, s_rep);
+    let mut rep = lens_upto(n_rep, s_rep);
+    rep.extend(pattern_lengths(s_rep as u64).into_iter().map(|x| x as usize).filter(|&x| x > n_rep));
+    rep.sort();
+    rep.dedup();
     report_sweep::<f64>(ctx, Kind::Scalar, &rep, 256, &mut item);
     report_sweep::<f64>(ctx, Kind::Sse, &rep, 256, &mut item);
     report_sweep::<f32>(ctx, Kind::Avx, &rep, 256, &mut item);
